@@ -31,15 +31,20 @@ def parseValLine (toks : List String) : ValRec := Id.run do
   | _ => r := { r with err := "?" }
   return r
 
-/-- C08: no defined bit of the abstract run may be contradicted by a (partial) concretisation -/
-def checkCompat (s : St) (what : String) (names : Nat → String) (abs conc : Array BV4) (isSource : Nat → Bool := fun _ => false) : St := Id.run do
+/-- C08: no defined bit of the abstract run may be contradicted by a (partial) concretisation.  A contradiction is reported
+    at its *source* (`srcOk i`: all inputs of node `i` are still compatible); contradictions that merely propagate are counted. -/
+def checkCompat (s : St) (what : String) (names : Nat → String) (abs conc : Array BV4)
+    (isSource : Nat → Bool := fun _ => false) (srcOk : Nat → Bool := fun _ => true) : St := Id.run do
   let mut s := s
   for i in [0:abs.size] do
     let a := abs[i]!
     let c := conc.getD i []
     s := { s with compatBits := s.compatBits + a.length }
     if !BV4.compatB a c then
-      s := s.propfail s!"stim={s.stim} {what}={i} {names i} class=defined-bit-contradicted abstract={BV4.toString a} concretised={BV4.toString c}"
+      if srcOk i then
+        s := s.propfail s!"stim={s.stim} {what}={i} {names i} class=defined-bit-contradicted abstract={BV4.toString a} concretised={BV4.toString c}"
+      else
+        s := { s with propagated := s.propagated + 1 }
     else if !BV4.leB a c then
       -- allowed by the property, but not monotone: recorded so that the evidence shows where it happens
       s := { s with nonMono := s.nonMono + 1, nonMonoHist := bump s.nonMonoHist (names i) }
@@ -110,8 +115,14 @@ def step (s : St) (line : String) : St :=
           (net.getD i ⟨.signal, 0, []⟩).ins.all fun o => match o with
             | none => true
             | some j => BV4.leB (absNv.getD j []) (implNv.getD j [])
-        let s := checkCompat s "node" (nodeKindName s) s.absNv s.implNv isSource
-        checkCompat s "val" (fun i => "op=" ++ opBase (s.vals.getD i {}).op) s.absXv xv
+        let srcOk := fun (i : Nat) =>
+          (net.getD i ⟨.signal, 0, []⟩).ins.all fun o => match o with
+            | none => true
+            | some j => BV4.compatB (absNv.getD j []) (implNv.getD j [])
+        let before := s.propfails
+        let s := checkCompat s "node" (nodeKindName s) s.absNv s.implNv isSource srcOk
+        -- expression values are node outputs: only consulted when no node explains a contradiction
+        if s.propfails == before then checkCompat s "val" (fun i => "op=" ++ opBase (s.vals.getD i {}).op) s.absXv xv else s
     else { s with absXv := xv }
   | "ct" :: rest => Id.run do
     -- construction-time vs run-time evaluation of constant expressions
@@ -181,7 +192,7 @@ def run (c08 : Bool) : IO Unit := do
   IO.println (s!"SUMMARY \{\"cases\":{s.cases},\"ops\":{s.nodeEvals + s.feEvals},\"diffs\":{s.diffs},\"propfails\":{s.propfails}," ++
     s!"\"operator_instances\":{s.ops},\"node_evals\":{s.nodeEvals},\"fe_evals\":{s.feEvals},\"spec_checks\":{s.specChecks},\"xsound_checks\":{s.xsoundChecks}," ++
     s!"\"stimuli\":{s.stims},\"error_cases\":{s.errCases},\"unsafe_cases\":{s.unsafeCases},\"crash_cases\":{s.crashCases}," ++
-    s!"\"conc_pairs\":{s.concPairs},\"compat_bits\":{s.compatBits},\"non_monotone\":{s.nonMono}," ++
+    s!"\"conc_pairs\":{s.concPairs},\"compat_bits\":{s.compatBits},\"non_monotone\":{s.nonMono},\"propagated_contradictions\":{s.propagated}," ++
     s!"\"hist\":{histJson s.opHist},\"node_kinds\":{histJson s.kindHist},\"widths\":{histJson s.widthHist},\"definedness\":{histJson s.defHist},\"non_monotone_where\":{histJson s.nonMonoHist},\"non_monotone_sources\":{histJson s.nonMonoSrc}}")
 
 end Drv
